@@ -941,6 +941,43 @@ def t3_numchars(prog, rep):
               "bytes passed: %r; a JSON number is made of %r" % (bytes(sorted(passed - {0})), bytes(sorted(JSON_NUMCHARS))), function=f.name, construct="numchars")
 
 
+def t3_literals(prog, rep):
+    """skip_literal recognises exactly the three JSON literals, each by comparing its own length of bytes, only when that many bytes
+    remain, and steps over exactly that many: for each return of &buf[n] the controlling conditions say memcmp(buf, L, n) == 0 with
+    L one of "false", "null", "true" and n its length, and (end - buf) >= n."""
+    u = prog.unit("util/json.c")
+    f = u.func("skip_literal")
+    if f is None:
+        raise cdb.AnalysisBroken("anchor missing: skip_literal")
+    B = ("v", f.params[0]["name"], f.params[0]["id"])
+    E = ("v", f.params[1]["name"], f.params[1]["id"])
+    seen = set()
+    bad = []
+    for r in f.returns():
+        v = norm(r.kid(0)) if r.kids else None
+        if v is None or v == E:
+            continue
+        if not (v[0] == "&" and v[1][0] == "[]" and v[1][1] == B and v[1][2][0] == "c"):
+            bad.append("`%s` is neither the end nor buf advanced by a constant" % r.text[:30])
+            continue
+        n = v[1][2][1]
+        lit, room = None, False
+        for cond, truth in f.edge_conds(r):
+            for op, L, R, Le, _ in cond_atoms(cond, truth):
+                k = Le.strip() if Le is not None else None
+                if k is not None and k.cls == "CallExpr" and k.callee == "memcmp" and op == "==" and R == ("c", 0) and k.arg(0) is not None and norm(k.arg(0)) == B and \
+                        k.arg(1) is not None and k.arg(1).strip() is not None and k.arg(1).strip().strv is not None and k.arg(2) is not None and norm(k.arg(2)) == ("c", n):
+                    lit = k.arg(1).strip().strv
+                if op == ">=" and L == ("-", E, B) and R == ("c", n):
+                    room = True
+        if lit is None or len(lit) != n or lit not in (b"false", b"null", b"true") or not room:
+            bad.append("advance by %d under literal %r, room test for %d bytes: %s" % (n, lit, n, room))
+        else:
+            seen.add(lit)
+    rep.check(not bad and seen == {b"false", b"null", b"true"}, "T3-tables", "skip_literal steps over exactly false, null and true", f.loc,
+              "; ".join(bad) if bad else "literals recognised: %s" % sorted(seen), function=f.name, construct="literals")
+
+
 def t3_unicode(prog, rep):
     """Names written with \\u escapes never match: in match_str, every way through the 'u' arm of the escape switch either
     answers `end` or stores 0 into *foundit before it rejoins the other arms (the verdict is sticky: nothing stores 1 after the
@@ -1399,6 +1436,7 @@ def run(tier):
         t3_unicode(prog, rep)
         t3_tables(prog, rep)
         t3_numchars(prog, rep)
+        t3_literals(prog, rep)
         from . import c14
         c14.leak_rules(prog, rep, only_files=("util/sock.c", "util/sock_util.c", "util/b64encode.c", "util/hexify.c", "util/json.c"))
         c14.reported_rule(prog, rep, only_files=("util/sock.c", "util/sock_util.c"))
